@@ -6,6 +6,8 @@ From Coq Require Import ZArith QArith Qminmax List Bool.
 From QV Require Import Base.ZQ Base.FL Quant.Fixed QTools.Types QTools.Ops QTools.LayerMap Quant.Po2 QTools.Po2Bridge.
 From QVGen Require Import QToolsOps.
 From QV Require Import Link.QToolsLink.
+From QVGen Require Import LayerMapGen.
+From QV Require Import Link.LayerMapLink.
 Import ListNotations.
 Open Scope Z_scope.
 
@@ -158,3 +160,37 @@ Theorem C18_po2_no_sign_bit_before_repair_refuted :
     - fst (get_exp (qt_of_po2 true (p_bits c) (p_mv c))) <= snd (po2_q c x).
 Proof. exact po2_no_sign_bit_before_repair_refuted. Qed.
 Print Assumptions C18_po2_no_sign_bit_before_repair_refuted.
+
+(* ---- the dense / convolution branch of generate_layer_data_type_map as /repo has it now (coq/gen/LayerMapGen.v, regenerated on every run) ---- *)
+Theorem C18_layermap_translation_ok : layermap_translation_ok = true.
+Proof. exact link_layermap_ok. Qed.
+Theorem C18_source_layer_map_entry_is_the_model : forall dw ub w x b kops kdw,
+  gen_layer_multiplier w x = layer_mul w x /\
+  gen_layer_accumulator dw ub w x b kops kdw = layer_acc w x (if dw then kdw else kops) (if ub then Some b else None).
+Proof. intros. split; [apply link_layer_multiplier | apply link_layer_accumulator]. Qed.
+Print Assumptions C18_source_layer_map_entry_is_the_model.
+(* the accumulator THE CODE stores for a bias-free fixed-point layer holds every dot product of representable codes *)
+Theorem C18_code_preactivation_fits_stored_accumulator_no_bias :
+  forall (dw : bool) w x b kops kdw kws kxs,
+  q_mode w = 0 -> q_mode x = 0 -> 0 <= mag_bits w -> 0 <= mag_bits x -> 1 <= (if dw then kdw else kops) ->
+  all_pairs (fun kw kx => code_ok w kw /\ code_ok x kx /\ ~ corner w x kw kx) kws kxs ->
+  Z.of_nat (length kws) <= (if dw then kdw else kops) ->
+  let acc := gen_layer_accumulator dw false w x b kops kdw in
+  frac_bits acc = frac_bits w + frac_bits x /\ code_ok acc (dot kws kxs).
+Proof. intros dw w x b kops kdw kws kxs Hw Hx Mw Mx Hk Hp Hl. cbv zeta. rewrite link_layer_accumulator.
+  apply dense_preact_fits_no_bias; assumption. Qed.
+Print Assumptions C18_code_preactivation_fits_stored_accumulator_no_bias.
+(* ... and with a fixed-point bias, on the finer of the two grids *)
+Theorem C18_code_preactivation_fits_stored_accumulator_with_bias :
+  forall (dw : bool) w x b kops kdw kws kxs kb,
+  q_mode w = 0 -> q_mode x = 0 -> q_mode b = 0 ->
+  0 <= mag_bits w -> 0 <= mag_bits x -> 0 <= mag_bits b -> 1 <= (if dw then kdw else kops) ->
+  all_pairs (fun kw kx => code_ok w kw /\ code_ok x kx /\ ~ corner w x kw kx) kws kxs ->
+  Z.of_nat (length kws) <= (if dw then kdw else kops) -> code_ok b kb ->
+  let acc := gen_layer_accumulator dw true w x b kops kdw in
+  let F := frac_bits acc in
+  F = Z.max (frac_bits w + frac_bits x) (frac_bits b) /\
+  code_ok acc (dot kws kxs * 2 ^ (F - (frac_bits w + frac_bits x)) + kb * 2 ^ (F - frac_bits b)).
+Proof. intros dw w x b kops kdw kws kxs kb Hw Hx Hb Mw Mx Mb Hk Hp Hl Hkb. cbv zeta. rewrite link_layer_accumulator.
+  apply dense_preact_fits_with_bias; assumption. Qed.
+Print Assumptions C18_code_preactivation_fits_stored_accumulator_with_bias.
